@@ -102,28 +102,31 @@ type Sim struct {
 	Stats  map[string]int
 	Probes map[string]int
 
-	traceEnd         int
-	Triggers         []*Trigger
-	tokenResets      []*tokenResetRec
-	deferredReq      *CReq
-	QEvents          []*QEventRec
-	querySubj        map[string]string
-	Refetches        []*RefetchRec
-	quietReset       *ResetRec
-	quietRoot        *CReq
-	pendingAcc       []pendingAccess
-	connGone         map[int]int
-	tokenResetSubj   map[string]bool
-	afterSettle      []func()
-	cliBudget        int
-	svcBudget        int
-	httpBudget       int
-	faultBudget      int
-	skipped          int
-	gwStopped        bool
-	seamSeen         int
-	lastUse          map[string]time.Duration
-	refetchFailed    map[*Variant]bool
+	traceEnd       int
+	Triggers       []*Trigger
+	tokenResets    []*tokenResetRec
+	deferredReq    *CReq
+	QEvents        []*QEventRec
+	querySubj      map[string]string
+	Refetches      []*RefetchRec
+	quietReset     *ResetRec
+	quietRoot      *CReq
+	pendingAcc     []pendingAccess
+	connGone       map[int]int
+	tokenResetSubj map[string]bool
+	afterSettle    []func()
+	cliBudget      int
+	svcBudget      int
+	httpBudget     int
+	faultBudget    int
+	skipped        int
+	gwStopped      bool
+	seamSeen       int
+	lastUse        map[string]time.Duration
+	refetchFailed  map[*Variant]bool
+	// failedRefetch: re-fetches that failed while the gateway's copy was in step;
+	// whether it still is depends on what was dropped while they were under way
+	failedRefetch    map[*Variant][]*Req
 	sawDerived       map[*Variant]bool
 	deletedByRefetch map[*Variant]bool
 	// unsure: a get for this query variant could not be classified as initial
@@ -152,6 +155,7 @@ func newSim(cfg *RunCfg) *Sim {
 		Probes:           map[string]int{},
 		srcCnt:           map[string]int{},
 		refetchFailed:    map[*Variant]bool{},
+		failedRefetch:    map[*Variant][]*Req{},
 		tokenResetSubj:   map[string]bool{},
 		connGone:         map[int]int{},
 		querySubj:        map[string]string{},
